@@ -244,6 +244,23 @@ def evaluate(tag, lines, jobs=12):
             "raw": raw, "crashed": crashed}
 
 
+NOOP_RESULTS = {"noguard", "nohandle", "norecv", "nosender", "noscope", "busy"}
+
+
+def strip_noops(outcome):
+    body, sep, term = outcome.rpartition(";E:")
+    if not sep:
+        return outcome
+    tasks = []
+    for part in body.split(";"):
+        k, colon, rest = part.partition(":")
+        if not colon:
+            tasks.append(part); continue
+        items = [it for it in (rest.split(",") if rest else []) if it.partition("=")[2] not in NOOP_RESULTS]
+        tasks.append(f"{k}:" + ",".join(items))
+    return ";".join(tasks) + ";E:" + term
+
+
 def prog_size(pl):
     return sum(1 for l in pl if l.startswith("  "))
 
@@ -265,7 +282,9 @@ def oracles(ev, only=None):
         im, (mo, mo_ok), (rf, rf_ok), (ln, ln_ok) = ev["impl"][n], ev["model"][n], ev["ref"][n], ev["lenient"][n]
         # `nohandle`: the program looked a thread handle up in the HARNESS's shared table while the spawn that
         # fills it was concurrent — communication outside Shuttle's primitives, outside the property's premise
-        if any(o.endswith("E:unsupported") or "=nohandle" in o for o in rf | ln | im["outcomes"]):
+        # (the same holds for every operation that never reaches the runtime — `unwrite` without a guard, `recv` without a
+        # receiver …: bookkeeping of the harness, not a step of the program, hence no scheduling point)
+        if any(o.endswith("E:unsupported") or any(f"={r}" in o for r in NOOP_RESULTS) for o in rf | ln | im["outcomes"]):
             cnt["skipped_unsupported"] += 1
             continue
         if not im["complete"]:
@@ -286,7 +305,9 @@ def oracles(ev, only=None):
         cnt["ref_outcomes"] += len(rf)
         cnt["impl_outcomes"] += len(im["outcomes"])
         missing = sorted(rf - im["outcomes"])
-        unsound = sorted(im["outcomes"] - ln)
+        # (what other tasks observe while a panic is propagating — locks closed by a panicking release, F11/F12 — is outside
+        # the reference semantics and outside this property; the soundness of those executions is C04's business)
+        unsound = sorted(o for o in im["outcomes"] - ln if not o.endswith(";E:panic"))
         if missing:
             cnt["programs_missing"] += 1
             sigs = {}
@@ -454,7 +475,8 @@ def run(tier, seed):
 CAUSES = [("chan-endpoint-drop", {"drop_tx", "drop_rx"}, True),
           ("once-is_completed", {"is_completed"}, False),
           ("sem-available_permits", {"avail"}, False),
-          ("barrier-blocking-wait", {"bwait"}, False)]
+          ("barrier-blocking-wait", {"bwait"}, False),
+          ("park", {"park"}, False)]
 CHAN_OPS = {"send", "try_send", "recv", "try_recv", "drop_tx", "drop_rx"}
 
 
